@@ -155,7 +155,8 @@ def gen_forest(rng, refs, deep=False):
 
 
 def one_case(arg):
-    seed, idx, binary, scratch, deep = arg
+    seed, idx, binary, scratch, deep = arg[:5]
+    shimdir = arg[5] if len(arg) > 5 else None
     rng = random.Random("C07|%d|%d" % (seed, idx))
     d = os.path.join(scratch, "f%d" % idx)
     os.makedirs(d)
@@ -269,6 +270,12 @@ def one_case(arg):
                             out["viol"].append(("C07/table-rows", dict(ctx, got=gotrows[:8], want=wantrows[:8])))
             if out["sample"] is None:
                 out["sample"] = {"config_entries": entries[:6], "sel": sel, "tallies": dict(list(tallies.items())[:8])}
+            if idx % 5 == 0 and shimdir:
+                class _C:      # collect into the worker's result
+                    def count(self, n=1): out["runs"] += n
+                    def bump(self, *a): pass
+                    def violation(self, sig, det): out["viol"].append((sig, det))
+                R.fault_probe(_C(), "C07", binary, gitdir, ["--json"] + base, rng, shimdir, d, n=2)
     finally:
         shutil.rmtree(d, ignore_errors=True)
     return out
@@ -319,7 +326,8 @@ def run(chk, b, tier):
     n = 150 if tier == "quick" else 3000
     sz = b.sizer()
     scratch = b.scratchdir()
-    jobs = [(R.SEED, i, sz, scratch, (i % 5 == 4)) for i in range(n)]
+    shimdir = b.shimdir()
+    jobs = [(R.SEED, i, sz, scratch, (i % 5 == 4), shimdir) for i in range(n)]
     res = R.pmap(one_case, jobs, chunksize=2, chk=chk)
     depths = {}
     for r in res:
